@@ -10,8 +10,8 @@ Ltac Zify.zify_post_hook ::= Z.to_euclidean_division_equations.
 
 (* structural reduction of slicing / codecs over lists whose spine is concrete *)
 Ltac layout :=
-  cbv [sub_at le_at be_at byte_at firstn skipn app nth rev le_encode be_encode le_decode be_decode be_decode_acc
-       Nat.sub hd tl].
+  cbv [sub_at le_at be_at byte_at firstn skipn app rev le_encode be_encode le_decode be_decode be_decode_acc
+       Nat.sub].
 
 Lemma if_true {A} (c : bool) (a b : A) : c = true -> (if c then a else b) = a.
 Proof. intros ->; reflexivity. Qed.
@@ -27,3 +27,44 @@ Ltac list_lia_timed := repeat (apply (f_equal2 (@cons Z)); [time (timeout 60 lia
 
 (* same after folding chains of divisions a / b / c into a / (b * c) (much easier for lia) *)
 Ltac list_lia_dd := rewrite !Z.div_div by lia; list_lia.
+
+(* decode (encode v) = v in the shape `layout` leaves behind *)
+Lemma le1_eq v : 0 <= v < 256 -> v mod 256 + 256 * 0 = v. Proof. lia. Qed.
+Lemma le2_eq v : 0 <= v < 65536 -> v mod 256 + 256 * ((v / 256) mod 256 + 256 * 0) = v. Proof. lia. Qed.
+Lemma le4_eq v : 0 <= v < 4294967296 ->
+  v mod 256 + 256 * ((v / 256) mod 256 + 256 * ((v / 256 / 256) mod 256 + 256 * ((v / 256 / 256 / 256) mod 256 + 256 * 0))) = v.
+Proof. lia. Qed.
+Lemma le6_eq v : 0 <= v < 281474976710656 ->
+  v mod 256 + 256 * ((v / 256) mod 256 + 256 * ((v / 256 / 256) mod 256 + 256 * ((v / 256 / 256 / 256) mod 256 + 256 *
+  ((v / 256 / 256 / 256 / 256) mod 256 + 256 * ((v / 256 / 256 / 256 / 256 / 256) mod 256 + 256 * 0))))) = v.
+Proof. lia. Qed.
+Lemma le8_eq v : 0 <= v < 18446744073709551616 ->
+  v mod 256 + 256 * ((v / 256) mod 256 + 256 * ((v / 256 / 256) mod 256 + 256 * ((v / 256 / 256 / 256) mod 256 + 256 *
+  ((v / 256 / 256 / 256 / 256) mod 256 + 256 * ((v / 256 / 256 / 256 / 256 / 256) mod 256 + 256 *
+  ((v / 256 / 256 / 256 / 256 / 256 / 256) mod 256 + 256 * ((v / 256 / 256 / 256 / 256 / 256 / 256 / 256) mod 256 + 256 * 0))))))) = v.
+Proof. lia. Qed.
+Lemma be2_eq v : 0 <= v < 65536 -> (0 * 256 + (v / 256) mod 256) * 256 + v mod 256 = v. Proof. lia. Qed.
+Lemma be3_eq v : 0 <= v < 16777216 -> ((0 * 256 + (v / 256 / 256) mod 256) * 256 + (v / 256) mod 256) * 256 + v mod 256 = v.
+Proof. lia. Qed.
+Lemma be4_eq v : 0 <= v < 4294967296 ->
+  (((0 * 256 + (v / 256 / 256 / 256) mod 256) * 256 + (v / 256 / 256) mod 256) * 256 + (v / 256) mod 256) * 256 + v mod 256 = v.
+Proof. lia. Qed.
+
+Ltac decode_encode :=
+  repeat first [ rewrite le8_eq by lia | rewrite le6_eq by lia | rewrite le4_eq by lia | rewrite le2_eq by lia
+               | rewrite be4_eq by lia | rewrite be3_eq by lia | rewrite be2_eq by lia ].
+
+(* resolve the guards of a decoder one by one *)
+Ltac guard_false := rewrite if_false by lia.
+Ltac guard_true := rewrite if_true by lia.
+Ltac guards := repeat first [ rewrite if_false by lia | rewrite if_true by lia ].
+
+(* the fixed-size header at the start of a longer file *)
+Lemma sub_at_0_app (n : nat) (h rest : list Z) : length h = n -> sub_at 0 n (h ++ rest) = h.
+Proof.
+  intros <-. unfold sub_at. cbn [skipn]. rewrite firstn_app, Nat.sub_diag, firstn_all. cbn [firstn]. apply app_nil_r.
+Qed.
+
+(* Python list indexing inside the bounds *)
+Lemma idx_in i l : 0 <= i < zlen l -> idx i l = Some (nth (Z.to_nat i) l 0).
+Proof. intros H. unfold idx. rewrite if_true by lia. reflexivity. Qed.
